@@ -673,4 +673,4 @@ MANIFEST = {
             "(NumPy's own result is order-dependent there).",
 }
 
-MANIFEST_ADDENDUM = 'Also proved: inplace_on_base_seen_through_view (an update on a base is seen through its live view), inplace_on_owner_where_refines_numpy (where=-masked update: guarded call + ApplyMask in closed form). Oracle additions: programs with statements both sides reject and with dropped handles; views made with mutable argument objects that the caller changes afterwards. Round 5: views made with integer-valued 0-d tensors/arrays as indices and slice bounds that the caller changes afterwards; .shape statements NumPy refuses (transposed views, pinned sequences) must be refused and leave the family unchanged; explicit constant= on out= statements in the program IR (ties inplace_ignores_explicit_constant to the code by correspondence).'
+MANIFEST_ADDENDUM = 'Also proved: inplace_on_base_seen_through_view (an update on a base is seen through its live view), inplace_on_owner_where_refines_numpy (where=-masked update: guarded call + ApplyMask in closed form). Oracle additions: programs with statements both sides reject and with dropped handles; views made with mutable argument objects that the caller changes afterwards. Round 5: views made with integer-valued 0-d tensors/arrays as indices and slice bounds that the caller changes afterwards; .shape statements NumPy refuses (transposed views, pinned sequences) must be refused and leave the family unchanged; explicit constant= on out= statements in the program IR (ties inplace_ignores_explicit_constant to the code by correspondence). Round 6: view-or-copy parity (shares memory with its operand exactly when NumPy`s result does, .base set exactly then) of 21 shape/copy routines over C-, F-ordered and strided operands, tracked and inside no_autodiff.'
